@@ -393,7 +393,7 @@ def search_cpython(ctx: Ctx) -> SearchResult:
 	hist: Counter[str] = Counter()
 	seen: set[str] = set()
 	# defect-candidate witnesses and past findings first
-	for level, toks, text in gen_sentences(world, ctx.scale(700, 12000), ctx.scale(70, 120), 3):
+	for level, toks, text in gen_sentences(world, ctx.scale(700, 7000), ctx.scale(70, 120), 3):
 		res.cases += 1
 		if text not in seen:
 			seen.add(text)
@@ -444,7 +444,7 @@ def search_mutated(ctx: Ctx) -> SearchResult:
 			if fn.endswith('.json'):
 				with open(os.path.join(d, fn), encoding='utf-8') as f:
 					texts.extend(('corpus', t) for t in json.load(f).get('texts', []))
-	for level, toks, text in gen_sentences(world, ctx.scale(350, 5000), ctx.scale(60, 100), 3):
+	for level, toks, text in gen_sentences(world, ctx.scale(350, 3000), ctx.scale(60, 100), 3):
 		for _ in range(2):
 			mtoks, mk = gramlib.mutate_tokens(toks, rng, world.vocabulary)
 			if paren_depth(mtoks) <= 4:
